@@ -179,6 +179,39 @@ class CFG:
                 work.append((s, 0, path + [s]))
         return None
 
+    def enum_paths(self, start, is_target, is_blocker, start_after=True, limit=5000):
+        """all simple block paths from `start` to an element satisfying is_target (or 'exit') that meet no blocker element.
+        Raises AnalysisBroken when more than `limit` paths exist (loops are not unrolled: a block is entered once per path)."""
+        sb, si = start
+        out = []
+        work = [(sb, si + 1 if start_after else si, [sb])]
+        while work:
+            b, i0, path = work.pop()
+            blk = self.blocks[b]
+            stop = False
+            for idx in range(i0, len(blk.elems)):
+                e = blk.elems[idx]
+                if is_target != "exit" and is_target(b, idx, e):
+                    out.append(path)
+                    stop = True
+                    break
+                if is_blocker(b, idx, e):
+                    stop = True
+                    break
+            if stop:
+                continue
+            if is_target == "exit" and b == self.exit:
+                out.append(path)
+                continue
+            for s_ in blk.succs:
+                if s_ is None or s_ in path:
+                    continue
+                work.append((s_, 0, path + [s_]))
+            if len(out) + len(work) > limit:
+                from .work import AnalysisBroken
+                raise AnalysisBroken("%s: more than %d paths" % (self.fn.q, limit))
+        return out
+
     def elem_node(self, e):
         if isinstance(e, int):
             return self.fn.nodes.get(e)
